@@ -2,6 +2,7 @@
 // Usage: nwv <driver> <cases.json> <out.json>
 mod codec_drv;
 mod framing_drv;
+mod outbound_drv;
 mod server_drv;
 mod unicode_drv;
 mod gen_schema;
@@ -23,6 +24,7 @@ fn main() {
     "framing" => framing_drv::run(&cases),
     "unicode" => unicode_drv::run(&cases),
     "server" => server_drv::run(&cases),
+    "outbound" => outbound_drv::run(&cases),
     other => {
       eprintln!("unknown driver {other}");
       std::process::exit(2);
